@@ -54,6 +54,12 @@ fn run(f: &str, a: &[&str]) -> String {
         }
         "reciprocal" => out_z(d::reciprocal(z64(a[0])).into()),
         "reciprocal_2" => out_z(d::reciprocal_2(z128(a[0])).into()),
+        "div_2x1_ref" => {
+            let (q, r) = d::div_2x1_ref(z128(a[0]), z64(a[1]));
+            format!("{} {}", out_z(q.into()), out_z(r.into()))
+        }
+        "div_3x2_ref" => out_z(d::div_3x2_ref(z128(a[0]), z64(a[1]), z128(a[2])).into()),
+        "reciprocal_ref" => out_z(d::reciprocal_ref(z64(a[0])).into()),
         _ => format!("X unknown-fn {f}"),
     }
 }
